@@ -3,6 +3,10 @@ From EZ Require Import Base Types Float32 Run Proofs_Decide.
 Definition ls_ok_x (s : state) : bool := ls_ok_b f_key_impl f_tosize_impl f_div_impl s.
 Definition ls4_ok_x (s : state) : bool := ls4_ok_b f_key_impl f_tosize_impl f_div_impl s.
 Definition ls_flags_x (s : state) : list bool := ls_flags f_key_impl f_tosize_impl f_div_impl s.
-From EZ Require Import Proofs_LayoutCert.
+From EZ Require Import Proofs_LayoutCert Proofs_PointsOnly.
 Definition cert_ok_x (file : list N) : bool := cert_ok_b f_key_impl f_tosize_impl f_div_impl file.
 Definition cert_flags_x (file : list N) : list bool := cert_flags f_key_impl f_tosize_impl f_div_impl file.
+(* the same for objects without channels whose frames hold another number of (empty) sub-frames than the header announces *)
+Definition lsn_ok_x (s : state) : bool := lsn_ok_b f_key_impl f_tosize_impl f_div_impl s.
+Definition ls4n_ok_x (s : state) : bool := ls4n_ok_b f_key_impl f_tosize_impl f_div_impl s.
+Definition lsn_flags_x (s : state) : list bool := ls_flags f_key_impl f_tosize_impl f_div_impl (normalised s).
